@@ -31,24 +31,32 @@ from . import dailyframe as F
 from . import dailyref as R
 from . import dataclass as D
 
-EXPLANATION = "C02: frames and lists before/after the real constructors, _predict and the fit/predict wrappers; 2-call predict history."
-BOUNDS = {"quick": dict(rows="3-4 daily rows / 48 hourly rows", histories="2 predict calls", dq_lists="0..2"),
-          "thorough": dict(rows="4-5 daily rows / 72 hourly rows", histories="2 predict calls", dq_lists="0..2")}
-STUBS = ["_fit/_adaptive_fit/_predict of the gate cases as in C04", "SufficiencyCriteria._check_extreme_values -> no-op"]
+EXPLANATION = ("C02: frames and lists before/after the real constructors, from_series (Series/DataFrame, conventional/other labels, same/other timezone), "
+               "billing_df accessor, _predict and the fit/predict wrappers; 2-call predict history.")
+BOUNDS = {"quick": dict(rows="3-4 daily rows / 48 hourly rows", histories="2 predict calls", dq_lists="0..2",
+                        from_series="4 daily + 96 hourly rows (daily), 3 bills + 90 daily rows (billing); both containers of the same form"),
+          "thorough": dict(rows="3-4 daily rows / 48 hourly rows", histories="2 predict calls", dq_lists="0..2",
+                           from_series="as quick, full product of meter form x temperature form x timezone")}
+STUBS = ["_fit/_adaptive_fit/_predict of the gate cases as in C04", "SufficiencyCriteria._check_extreme_values -> no-op",
+         "pandas.core.nanops._ensure_numeric passes symbolic reals through (billing_df groupby mean on an object column)"]
 MODELS_USED = ["symreal ExtensionArray"]
 ASSUMPTIONS = ["hourly model state (sklearn scalers, ElasticNet, temporal-cluster table) and hourly data classes are outside the claim: they cannot carry symbolic values",
                "call histories longer than two calls and interleaved fits are outside the claim"]
-EXPECTED_REGIMES = ["usage exactly 0 on electricity data", "poor fit appended to the model", "second predict after a different dataset"]
+EXPECTED_REGIMES = ["usage exactly 0 on electricity data", "poor fit appended to the model", "second predict after a different dataset",
+                    "temperature handed over in another timezone", "columns already carry the conventional names"]
 
 
 def ENCODED():
+    import opendsm.eemeter.models.billing.data as bd
     return [dd._DailyData.__init__, dd._DailyData._set_data, dd._DailyData.df.fget, dm.DailyModel._predict, dm.DailyModel._initialize_data, BillingModel.predict,
-            dm.DailyModel.fit, hm.HourlyModel.fit, hm.HourlyModel.predict]
+            dm.DailyModel.fit, hm.HourlyModel.fit, hm.HourlyModel.predict, dd._DailyData.from_series.__func__, dd.DailyReportingData.from_series.__func__,
+            bd.BillingReportingData.from_series.__func__, bd._BillingData.billing_df.fget]
 
 
 def cases(tier, seed):
     out = [f"data/{k}/{e}" for k in ("daily", "hourly") for e in ("elec", "gas")] + ["predict/frame", "predict/history", "predict/billing-agg"]
     out += [f"gate/{f}" for f in ("daily", "billing", "hourly")] + ["gate/hourly-predict"]
+    out += [f"series/{fam}/{role}" for fam in ("daily", "billing") for role in ("baseline", "reporting")] + ["accessor/billing_df"]
     return out
 
 
@@ -133,6 +141,185 @@ def run_data(case, kind, elec):
         case.regime("usage exactly 0 on electricity data", any(True for p in paths if any(z3.is_eq(c) and "o" in str(c) and "== 0" in str(c) for c in p.pc)) or
                     case.reach("z", [z3.Real("o0") == 0]) is not None)
     case.sample(dict(kind=kind, electricity=elec, rows=n, paths=len(paths)))
+
+
+# ------------------------------------------------------------------ from_series / accessors
+
+FORMS = ["series-named", "series-other", "frame-named", "frame-other"]
+
+
+def snap_any(x):
+    """snapshot of a caller-owned Series/DataFrame including what a tz conversion or relabelling would change"""
+    if x is None:
+        return None
+    f = x.to_frame(name="col") if isinstance(x, pd.Series) else x
+    s = snap(f)
+    s.update(kind=type(x).__name__, tz=str(x.index.tz), index_name=x.index.name, index_dtype=str(x.index.dtype),
+             labels=[str(x.name)] if isinstance(x, pd.Series) else [str(c) for c in x.columns])
+    return s
+
+
+def same_any(a, b):
+    if a is None or b is None:
+        return a is b
+    return same(a, b) and all(a[k] == b[k] for k in ("kind", "tz", "index_name", "index_dtype", "labels"))
+
+
+def series_inputs(fam, mform, tform, ttz, sym, env=None):
+    from . import c08
+    zone = "US/Pacific"
+    if fam == "daily":
+        midx = pd.date_range("2021-03-12", periods=4, freq="D", tz=zone)  # spans the spring DST change
+        tidx = pd.date_range("2021-03-12", "2021-03-16", freq="h", tz=zone, inclusive="left")
+        mvals = D.col("o", len(midx), (), sym, env)
+    else:
+        midx = c08.billing_index(zone, "30-31-28")
+        tidx = pd.date_range(midx[0], midx[-1], freq="D")
+        k = len(midx) - 1
+        vals = [real(f"o{i}") if sym else float(env.get(f"o{i}", 100.0)) for i in range(k)] + [float("nan")]
+        mvals = SymArray(vals) if sym else np.array(vals, dtype=float)
+    tvals = D.col("T", len(tidx), {1}, sym, env)
+    if ttz == "utc":
+        tidx = tidx.tz_convert("UTC")
+
+    def wrap(vals, idx, form, conventional):
+        sr = pd.Series(vals, index=idx, name=conventional if form.endswith("named") else "value")
+        return sr if form.startswith("series") else sr.to_frame()
+    meter = None if mform == "none" else wrap(mvals, midx, mform, "observed")
+    temp = wrap(tvals, tidx, tform, "temperature")
+    return meter, temp
+
+
+def series_class(fam, role):
+    import opendsm.eemeter.models.billing.data as bd
+    return {("daily", "baseline"): dd.DailyBaselineData, ("daily", "reporting"): dd.DailyReportingData,
+            ("billing", "baseline"): bd.BillingBaselineData, ("billing", "reporting"): bd.BillingReportingData}[(fam, role)]
+
+
+def replay_series(inp):
+    import logging
+    logging.disable(logging.CRITICAL)
+    meter, temp = series_inputs(inp["fam"], inp["mform"], inp["tform"], inp["ttz"], False, inp["env"])
+    bm, bt = (None if meter is None else meter.copy(deep=True)), temp.copy(deep=True)
+    cls = series_class(inp["fam"], inp["role"])
+    try:
+        cls.from_series(meter, temp, is_electricity_data=False)
+    except ValueError:
+        pass
+    pr = []
+    for who, a, b in (("meter", bm, meter), ("temperature", bt, temp)):
+        if a is None:
+            continue
+        lab = lambda x: [str(x.name)] if isinstance(x, pd.Series) else [str(c) for c in x.columns]
+        if not a.equals(b) or str(a.index.tz) != str(b.index.tz) or lab(a) != lab(b) or a.index.name != b.index.name:
+            pr.append(f"from_series changed the caller's {who} data ({type(a).__name__}, tz {a.index.tz} -> {b.index.tz}, labels {lab(a)} -> {lab(b)})")
+    return bool(pr), "; ".join(pr)
+
+
+def run_series(case, fam, role):
+    cls = series_class(fam, role)
+    n_m = 4 if fam == "daily" else 3
+    n_t = 96 if fam == "daily" else 90
+    case.inputs = [z3.Real(f"o{i}") for i in range(n_m)] + [z3.Real(f"T{i}") for i in range(n_t)]
+
+    def run():
+        if case.tier == "thorough":  # full product of the two containers' forms
+            mform = F.choose("meter_form", FORMS + (["none"] if role == "reporting" else []))
+            tform = F.choose("temp_form", FORMS)
+        else:  # both containers of the same form (plus the temperature-only reporting call)
+            tform = F.choose("temp_form", FORMS)
+            mform = F.choose("meter_none", ["none", tform]) if role == "reporting" else tform
+        ttz = F.choose("temp_tz", ["same", "utc"])
+        meter, temp = series_inputs(fam, mform, tform, ttz, True)
+        b = (snap_any(meter), snap_any(temp))
+        refused = False
+        try:
+            d = cls.from_series(meter, temp, is_electricity_data=False)
+        except ValueError:
+            refused = True  # a refusal must leave the inputs intact as well
+        a = (snap_any(meter), snap_any(temp))
+        return (mform, tform, ttz), b, a, refused
+
+    with D.symbolic_dataclasses():
+        paths = case.explore(run)
+    seen = set()
+    for p in paths:
+        if p.outcome != "ret":
+            case.rep["harness_errors"].append(f"{cls.__name__}.from_series raised {p.value!r}")
+            continue
+        var, b, a, refused = p.value
+        seen.add(var)
+        rp = ("series", (lambda v: lambda mdl: dict(fam=fam, role=role, mform=v[0], tform=v[1], ttz=v[2], env=model_env(mdl, case.inputs)))(var))
+        case.twin(p)
+        case.prove(p, same_any(b[0], a[0]), "from_series never modifies the caller's meter Series/DataFrame (values, labels, index, timezone)", replay=rp)
+        case.prove(p, same_any(b[1], a[1]), "from_series never modifies the caller's temperature Series/DataFrame (values, labels, index, timezone)", replay=rp)
+        case.regime("temperature handed over in another timezone", var[2] == "utc")
+        case.regime("columns already carry the conventional names", var[0].endswith("named") and var[1].endswith("named"))
+    case.sample(dict(family=fam, role=role, variants=len(seen), paths=len(paths)))
+
+
+def _billing_object(sym, env=None):
+    from . import c08
+    import opendsm.eemeter.models.billing.data as bd
+    meter, temp = series_inputs("billing", "series-named", "series-named", "same", sym, env)
+    return bd.BillingBaselineData.from_series(meter, temp, is_electricity_data=False)
+
+
+def replay_accessor(inp):
+    import logging
+    logging.disable(logging.CRITICAL)
+    d = _billing_object(False, inp["env"])
+    before = d._df.copy(deep=True)
+    first = d.billing_df
+    pr = []
+    if list(d._df.columns) != list(before.columns) or not d._df.equals(before):
+        pr.append(f"reading billing_df changed the data object (columns {list(before.columns)} -> {list(d._df.columns)})")
+    if first is not None and len(first):
+        keep = first.copy(deep=True)
+        first.iloc[0, first.columns.get_loc("temperature")] = 12345.0
+        if not d.billing_df.equals(keep):
+            pr.append("frame handed out by billing_df is not an independent copy")
+    if list(d.df.columns) != list(before.columns):
+        pr.append("df handed out after billing_df has other columns")
+    return bool(pr), "; ".join(pr)
+
+
+def run_accessor(case):
+    """reading the derived billing view leaves the object as it was, and hands out independent frames"""
+    import pandas.core.nanops as nanops
+    from symv.carriers import patched
+    import opendsm.eemeter.models.billing.data as bd
+    case.inputs = [z3.Real(f"o{i}") for i in range(3)] + [z3.Real(f"T{i}") for i in range(90)]
+    _en = nanops._ensure_numeric
+
+    def run():
+        d = _billing_object(True)
+        b = snap(d._df)
+        first = d.billing_df
+        a = snap(d._df)
+        indep = True
+        if first is not None and len(first):
+            want = snap(first)
+            first.iloc[0, first.columns.get_loc("temperature")] = 999.0
+            again = snap(d.billing_df)
+            indep = same(want, again) or all((x is y) or (is_nan(x) and is_nan(y)) or (isinstance(x, SReal) and isinstance(y, SReal) and z3.eq(z3.simplify(lift(x)), z3.simplify(lift(y)))) or
+                                             (not isinstance(x, SReal) and not isinstance(y, SReal) and x == y)
+                                             for c in want["cols"] for x, y in zip(want["cells"][c], again["cells"][c])) and want["cols"] == again["cols"] and want["index"] == again["index"]
+        after_df = snap(d.df)
+        return b, a, indep, after_df["cols"] == b["cols"]
+
+    with D.symbolic_dataclasses(), patched(nanops, _ensure_numeric=lambda x: x if isinstance(x, SReal) else _en(x)):
+        paths = case.explore(run)
+    for p in paths:
+        if p.outcome != "ret":
+            case.rep["harness_errors"].append(f"billing_df raised {p.value!r}")
+            continue
+        b, a, indep, cols_ok = p.value
+        rp = ("accessor", lambda mdl: dict(env=model_env(mdl, case.inputs)))
+        case.twin(p)
+        case.prove(p, same(b, a) and cols_ok, "reading billing_df leaves the data object's frame unchanged", replay=rp)
+        case.prove(p, indep, "frames handed out by billing_df are independent copies", replay=rp)
+    case.sample(dict(accessor="billing_df", paths=len(paths)))
 
 
 # ------------------------------------------------------------------ predict
@@ -333,13 +520,17 @@ def run_hourly_predict(case):
     case.sample(dict(scenario="HourlyModel.fit then predict on GHI-carrying reporting data"))
 
 
-REPLAY = {"data": replay_data, "predict": replay_predict, "gate": replay_gate, "hp": replay_hp}
+REPLAY = {"data": replay_data, "predict": replay_predict, "gate": replay_gate, "hp": replay_hp, "series": replay_series, "accessor": replay_accessor}
 
 
 def run_case(case: Case, name: str):
     parts = name.split("/")
     if parts[0] == "data":
         return run_data(case, parts[1], parts[2])
+    if parts[0] == "series":
+        return run_series(case, parts[1], parts[2])
+    if parts[0] == "accessor":
+        return run_accessor(case)
     if parts[0] == "predict":
         if parts[1] == "billing-agg":
             return run_billing_agg(case)
